@@ -352,8 +352,8 @@ inductive MpdRes
   | panic
   deriving Repr
 
-/-- `generateSegmentTimelineNrMPD` (`ass` = first representation id of each AdaptationSet) -/
-def Gen.mpd (g : Gen) (newSeqNr : Nat) (ass : List String) : MpdRes :=
+/-- `generateSegmentTimelineNrMPD` on the reference representation of each listed AdaptationSet -/
+def Gen.mpdOn (g : Gen) (newSeqNr : Nat) (ass : List String) : MpdRes :=
   match g.ctrs.fullRange g.tracks with
   | none => .panic
   | some (first, last) =>
@@ -364,5 +364,20 @@ def Gen.mpd (g : Gen) (newSeqNr : Nat) (ass : List String) : MpdRes :=
       match tls with
       | none => .err "no-seg-data"
       | some tls => .ok { g with latest := last } first last tls
+
+/-- a representation that has delivered media: it has a buffer with at least one item -/
+def delivering (bufs : List (String × Buf)) (rep : String) : Bool :=
+  match lookupBuf bufs rep with
+  | some b => b.nr > 0
+  | none => false
+
+/-- (`fix:` commit) the Representations of an AdaptationSet that are written: those that have delivered media; an
+AdaptationSet without any is left out, the first of the others is the reference for the timeline -/
+def listedSets (bufs : List (String × Buf)) (ass : List (List String)) : List (List String) :=
+  (ass.map (fun reps => reps.filter (delivering bufs))).filter (fun reps => !reps.isEmpty)
+
+/-- `generateSegmentTimelineNrMPD` (`ass` = the representation ids of each AdaptationSet of the channel's MPD) -/
+def Gen.mpd (g : Gen) (newSeqNr : Nat) (ass : List (List String)) : MpdRes :=
+  g.mpdOn newSeqNr ((listedSets g.bufs ass).map (fun reps => reps.headD ""))
 
 end Recv
